@@ -1109,6 +1109,40 @@ where
         edge: &EdgeOfFunc<'id, Self>,
         literal_set: &EdgeOfFunc<'id, Self>,
     ) -> AllocResult<EdgeOfFunc<'id, Self>> {
+        /// Remove all literals at `level` and above from `set` (a conjunction
+        /// of literals). Returns the remaining literals and whether the
+        /// variable at `level` occurs positively in `set`.
+        #[inline] // tail-recursive
+        fn literal_set_pop<'a, M: Manager<Terminal = BDDTerminal>>(
+            manager: &'a M,
+            set: Borrowed<'a, M::Edge>,
+            level: LevelNo,
+        ) -> (Borrowed<'a, M::Edge>, bool)
+        where
+            M::InnerNode: HasLevel,
+        {
+            match manager.get_node(&set) {
+                Node::Inner(node) if node.level() <= level => {
+                    let (t, e) = collect_children(node);
+                    // For a positive literal, the else branch is ⊥ and the
+                    // remaining literals are in the then branch (and vice
+                    // versa for a negative literal).
+                    let (rest, positive) =
+                        if manager.get_node(&e).is_terminal(&BDDTerminal::False) {
+                            (t, true)
+                        } else {
+                            (e, false)
+                        };
+                    if node.level() == level {
+                        (rest, positive)
+                    } else {
+                        literal_set_pop(manager, rest, level)
+                    }
+                }
+                _ => (set, false),
+            }
+        }
+
         fn inner<M: Manager<Terminal = BDDTerminal>>(
             manager: &M,
             edge: Borrowed<M::Edge>,
@@ -1122,18 +1156,7 @@ where
             };
             let level = node.level();
 
-            let literal_set = crate::set_pop(manager, literal_set, level);
-            let (literal_set, c) = match manager.get_node(&literal_set) {
-                Node::Inner(node) if node.level() == level => {
-                    let (t, e) = collect_children(node);
-                    if manager.get_node(&e).is_terminal(&BDDTerminal::False) {
-                        (e, true)
-                    } else {
-                        (t, false)
-                    }
-                }
-                _ => (literal_set, false),
-            };
+            let (literal_set, c) = literal_set_pop(manager, literal_set, level);
 
             let (t, e) = collect_children(node);
             let c = if manager.get_node(&t).is_terminal(&BDDTerminal::False) {
